@@ -4,6 +4,7 @@ mod dump;
 mod loopranges;
 mod partitions;
 mod regex;
+mod strings;
 mod terms;
 mod util;
 
@@ -55,6 +56,10 @@ fn main() {
         ("drive", "partitions") => partitions::drive(&a),
         ("replay", "partitions") => partitions::replay(&a),
         ("drive", "loopranges") => loopranges::drive(&a),
+        ("drive", "c06") => strings::drive_c06(&a),
+        ("drive", "c08") => strings::drive_c08(&a),
+        ("drive", "c09") => strings::drive_c09(&a),
+        ("drive", "c17") => strings::drive_c17(&a),
         ("drive", "c01") => regex::drive_c01(&a),
         ("drive", "c02") => regex::drive_c02(&a),
         ("drive", "c03") => regex::drive_c03(&a),
